@@ -524,6 +524,8 @@ func (t *smallHuffCodeTable) genForDists(codes []huffCode, count []uint16, maxSy
 
 	codeListLen := countTotal[16]
 	if codeListLen == 0 {
+		// no distance code at all: every lookup must fail, not hit a previous block's entries
+		t.ShortCodeLookup = [len(t.ShortCodeLookup)]uint16{}
 		return
 	}
 	var codeList [distLen + 2]uint32 /* The +2 is for the extra codes in the static header */
@@ -542,6 +544,11 @@ func (t *smallHuffCodeTable) genForDists(codes []huffCode, count []uint16, maxSy
 		lastLength = distLookupBits + 1
 	}
 	copySize := (1 << (lastLength - 1))
+
+	// Initialize ShortCodeLookup, so that lookups of unassigned codes fail
+	for i := range t.ShortCodeLookup[:copySize] {
+		t.ShortCodeLookup[i] = 0
+	}
 
 	for ; lastLength <= distLookupBits; lastLength++ {
 		copy(t.ShortCodeLookup[copySize:], t.ShortCodeLookup[:copySize])
